@@ -98,6 +98,10 @@ def run(ctx, deps=True):
 
 
 def _cause(eng, p, x, name, U, T, gpg, D, K, th):
+    from . import refuted_at_defaults
+
+    if refuted_at_defaults(eng, "authentication.verify_delegation", (name[1], U[1], T[1], gpg[1]), set(p.facts) | set(x.conds)):
+        return "an optional parameter outside the documented signature has a non-default value"
     from .vs import envelope
 
     top = x.chain[0]
